@@ -94,6 +94,44 @@ def _assign(env, target, value_sub):
         pass
 
 
+def branches(test, polarity):
+    """Disjunctive expansion of ``test == polarity`` into conjunctions of atomic
+    literals, following short-circuit evaluation:  not (a and b)  ->  [not a] | [a, not b]."""
+    if isinstance(test, ast.UnaryOp) and isinstance(test.op, ast.Not):
+        return branches(test.operand, not polarity)
+    if isinstance(test, ast.BoolOp):
+        is_and = isinstance(test.op, ast.And)
+        if is_and == polarity:
+            # all operands have the polarity: cartesian product of their expansions
+            acc = [[]]
+            for v in test.values:
+                acc = [a + b for a in acc for b in branches(v, polarity)]
+            return acc
+        # first operand that decides: earlier ones have the non-deciding value
+        out = []
+        prefix = [[]]
+        for v in test.values:
+            for pre in prefix:
+                for b in branches(v, polarity):
+                    out.append(pre + b)
+            prefix = [pre + b for pre in prefix for b in branches(v, not polarity)]
+        return out
+    return [[normalise(test, polarity)]]
+
+
+_NEG = {ast.IsNot: ast.Is, ast.NotEq: ast.Eq, ast.NotIn: ast.In}
+
+
+def normalise(test, polarity):
+    """Canonical literal: negative comparison operators are turned into their positive
+    form with the polarity flipped (``x is not None`` true  ==  ``x is None`` false)."""
+    if isinstance(test, ast.Compare) and len(test.ops) == 1 and type(test.ops[0]) in _NEG:
+        new = ast.Compare(left=test.left, ops=[_NEG[type(test.ops[0])]()], comparators=test.comparators)
+        ast.copy_location(new, test)
+        return (ast.fix_missing_locations(new), not polarity)
+    return (test, polarity)
+
+
 def paths(fn, max_paths=4096, loops="error"):
     body = fn.body if isinstance(fn, FuncTypes) else list(fn)
     out = []
@@ -129,8 +167,10 @@ def paths(fn, max_paths=4096, loops="error"):
             return nxt(conds, env, effects)
         if isinstance(s, ast.If):
             t = subst(s.test, env)
-            run(s.body, conds + [(t, True)], env, effects, nxt)
-            run(s.orelse, conds + [(t, False)], env, effects, nxt)
+            for conj in branches(t, True):
+                run(s.body, conds + conj, env, effects, nxt)
+            for conj in branches(t, False):
+                run(s.orelse, conds + conj, env, effects, nxt)
             return
         if isinstance(s, ast.Return):
             out.append(Path(conds, "return", subst(s.value, env), env, effects, s))
